@@ -136,7 +136,16 @@ class CallGraph:
             sets = [self.adts_of_trait.get(b, set()) for b in bounds]
             return set.intersection(*sets)
         if t.get("k") == "alias":
-            return self.alias_values.get(t["path"])
+            vals = self.alias_values.get(t["path"])
+            if vals is not None:
+                return vals
+            # associated type of a trait without local impls: it can only stand for a local ADT that
+            # implements every declared bound of the associated type (`type Error: de::Error`)
+            bounds = [b for b in (t.get("bounds") or []) if not (b.startswith("core::marker::") and b != "core::marker::Copy")]
+            if not bounds:
+                return None
+            sets = [self.adts_of_trait.get(b, set()) for b in bounds]
+            return set.intersection(*sets)
         return None
 
     def _type_callbacks(self, src, t, depth):
